@@ -18,6 +18,7 @@ func ruleC04(prog *Program, rep *Report) {
 	ruleJSONStringWriter(prog, rep)
 	ruleWriterParity(prog, rep)
 	ruleEntryPairWriters(prog, rep)
+	ruleEscapeDiscipline(prog, rep, "AppendJSONString")
 	ruleSortedEmit(prog, rep)
 	ruleClamp(prog, rep)
 	ruleSeparator(prog, rep)
@@ -518,6 +519,11 @@ func rulePadBound(prog *Program, rep *Report) {
 			rep.Violate(Finding{Rule: "W-padbound", Key: fmt.Sprintf("pretty.%s:reached-without-clamp:%s", funcKey(decls[s.fn]), strings.Join(bad, ",")), Pos: prog.Pos(s.pos), Msg: fmt.Sprintf("%s is reachable from %s without passing through the function that clamps Width to the length of %s", s.txt, strings.Join(bad, ", "), s.str.Name())})
 			continue
 		}
+		// a pad of the form S[1 : A-B+1] needs B < A (or B <= A) around it: a cell wider than its column has no pad
+		if g := padOperandGuard(info, decls[s.fn], s.pos); g != "" {
+			rep.Violate(Finding{Rule: "W-padbound", Key: fmt.Sprintf("pretty.%s:pad-unguarded#%d", funcKey(decls[s.fn]), i+1), Pos: prog.Pos(s.pos), Msg: fmt.Sprintf("%s is sliced without the test %s around it: a member wider than its column makes the bound fall below the start of the slice (slice bounds out of range)", s.txt, g)})
+			continue
+		}
 		var cn []string
 		for o := range clamps {
 			cn = append(cn, funcKey(decls[o]))
@@ -588,4 +594,49 @@ func ruleEntryPairWriters(prog *Program, rep *Report) {
 	if pairs < 2 {
 		rep.Errorf("W-pair compared %d pairs (floor 2)", pairs)
 	}
+}
+
+// padOperandGuard: for the slice expression at pos with high bound A - B + 1, returns the missing guard text
+// "B < A" when no enclosing if-condition states B < A or B <= A (either operand order), "" otherwise.
+func padOperandGuard(info *types.Info, fd *ast.FuncDecl, pos token.Pos) string {
+	missing := ""
+	var path []ast.Node
+	ast.Inspect(fd.Body, func(n ast.Node) bool {
+		if n == nil {
+			path = path[:len(path)-1]
+			return true
+		}
+		path = append(path, n)
+		se, ok := n.(*ast.SliceExpr)
+		if !ok || se.Pos() != pos || se.High == nil {
+			return true
+		}
+		add, ok := ast.Unparen(se.High).(*ast.BinaryExpr)
+		if !ok || add.Op != token.ADD {
+			return true
+		}
+		sub, ok := ast.Unparen(add.X).(*ast.BinaryExpr)
+		if !ok || sub.Op != token.SUB {
+			return true
+		}
+		a, b := types.ExprString(sub.X), types.ExprString(sub.Y)
+		guarded := false
+		for i := len(path) - 2; i >= 0; i-- {
+			is, ok := path[i].(*ast.IfStmt)
+			if !ok || !nodeWithin(is.Body, se) {
+				continue
+			}
+			if be, ok := ast.Unparen(is.Cond).(*ast.BinaryExpr); ok {
+				x, y := types.ExprString(be.X), types.ExprString(be.Y)
+				if ((be.Op == token.LSS || be.Op == token.LEQ) && x == b && y == a) || ((be.Op == token.GTR || be.Op == token.GEQ) && x == a && y == b) {
+					guarded = true
+				}
+			}
+		}
+		if !guarded {
+			missing = b + " < " + a
+		}
+		return true
+	})
+	return missing
 }
